@@ -74,7 +74,19 @@ fn degenerate(rng: &mut Rng) -> (Problem, &'static str) {
             }
             let m = total_dim(&cones);
             let a = gen::random_sparse(rng, m, n, 0.7, -1.0, 1.0);
-            let b: Vec<f64> = (0..m).map(|_| rng.range(-1.0, 2.0)).collect();
+            let mut b: Vec<f64> = (0..m).map(|_| rng.range(-1.0, 2.0)).collect();
+            // ... together with infinite bounds, so that the presolver rewrites this very cone list
+            if rng.bool(0.4) {
+                for (c, r) in cones.iter().zip(cone_ranges(&cones)) {
+                    if matches!(c, ConeT::NonnegativeConeT(_)) {
+                        for i in r {
+                            if rng.bool(0.5) {
+                                b[i] = *rng.choose(&[1e20, 1e25, f64::MAX]);
+                            }
+                        }
+                    }
+                }
+            }
             let q: Vec<f64> = (0..n).map(|_| rng.range(-1.0, 1.0)).collect();
             let pd = gen::random_psd(rng, n, -1.0, 1.0);
             (Problem { P: gen::p_to_csc(&pd, false), q, A: a.to_csc(), b, cones }, "empty/singleton cones")
